@@ -123,6 +123,7 @@ typedef struct profile_s {
   int  thread_aligned;                 /* a helper thread allocates two aligned blocks (asizes[0]) and terminates */
   int  arena;                          /* C15: managed-arena operations */
   int  faults;                         /* hardened builds: double free / overflow / forged link operations */
+  int  haligned;                       /* heaps profile: heap_malloc_aligned(h1, 1000, 64 MiB) (own OS mapping placed by the kernel) */
   int  free_page;                      /* free_page_of(i) for the first live block of every distinct page (at most 6 pages) */
   int  fillcount, free_every;          /* blocks per fill (default 8); enable free_every(k,phase) ops */
   int  maxlive;                        /* allocation ops disabled above this many live blocks */
@@ -173,6 +174,13 @@ static const profile_t profiles[] = {
   { .name = "P6d", .msizes = { 8 * KiB }, .nm = 1, .hsizes = { 8 * KiB }, .nh = 1, .arena = 1, .setdef = 1, .collect1 = 1, .maxlive = 16, .free_window = 4 },
   /* P1q: page-queue transitions of a small class (direct-page table): from S12; whole pages are released in one operation */
   { .name = "P1q", .msizes = { 1024, 64 }, .nm = 2, .free_page = 1, .collect0 = 1, .maxlive = 400, .free_window = 2 },
+  /* P2g: a block that needs exactly 64 arena blocks (one whole bitmap field of a 4 GiB arena: start state S9) next to 17 MiB blocks */
+  { .name = "P2g", .msizes = { 2040 * MiB, 17 * MiB }, .nm = 2, .collect1 = 1, .maxlive = 3, .free_window = 3 },
+  /* P8d (run with --dirty from S10: a segment filled with 1 MiB pages): a 100 MiB block is filled with 0xFF and released, then huge and
+     1 MiB blocks need fresh segments on the arena blocks it occupied: a new segment's header must not inherit anything from them */
+  { .name = "P8d", .msizes = { 100 * MiB, 17 * MiB, 1 * MiB }, .nm = 3, .maxlive = 48, .free_window = 2 },
+  /* P4o: first-class heaps with over-aligned blocks (64 MiB alignment: a mapping of its own, placed by the kernel far above the arenas) */
+  { .name = "P4o", .msizes = { 8 * KiB }, .nm = 1, .hsizes = { 8 * KiB }, .nh = 1, .heaps = 1, .hdestroy = 1, .setdef = 1, .haligned = 1, .collect1 = 1, .maxlive = 8, .free_window = 4 },
   /* P9s: hardened builds (C17): a full page of 8 blocks, frees, and the three fault operations at every position */
   { .name = "P9s", .msizes = { 8000, 100 }, .nm = 2, .fills = { 8000 }, .nf = 1, .faults = 1, .collect1 = 1, .maxlive = 12, .free_window = 4 },
   /* P9g: hardened builds: a small size class whose pages start behind a gap at the beginning of their slice; start state S8 leaves
@@ -316,9 +324,9 @@ static int check_abandoned(void) {
   if (w->n > 0) VF_INC(nontrivial);
   if (w->n > 0) VF_INC(counters[4]);
   /* early stop; and a stopped walk must not change what the next complete walk reports */
-  if (w->calls >= 2) {
+  if (w->calls >= 1) {
     int n1 = w->n; uint64_t h1 = 0; for (int k = 0; k < w->n; k++) h1 += vf_mix((uintptr_t)w->blk[k] ^ (w->sz[k] << 48));
-    for (int stop = 2; stop <= 3 && stop <= w->calls; stop++) {
+    for (int stop = 1; stop <= 4 && stop <= w->calls; stop++) {     /* (call 1 is an area callback: block == NULL; call 4 is the second area's when the first holds two blocks) */
       walk_t* w2 = &g_walk_ab; memset(w2, 0, offsetof(walk_t, stop_after)); w2->stop_after = stop; w2->calls = 0;
       bool r = mi_abandoned_visit_blocks(mi_subproc_main(), -1, true, &walk_cb, w2);
       if (r || w2->calls != stop) { vf_violation("abandoned-walk-stop", "visitor returned false at call %d but the walk made %d calls and returned %d", stop, w2->calls, (int)r); return -1; }
@@ -808,6 +816,7 @@ static int vf_list_ops(vf_op_t* out, int max) {
     for (int h = 1; h < NHEAPS; h++) if (g_heaps[h] != NULL) {
       if (can_alloc) for (int i = 0; i < P->nh; i++) PUSH(OP_HMALLOC, h, P->hsizes[i]);
       if (vf_nlive + 9 <= P->maxlive && !P->arena) PUSH(OP_HFILL, h, P->hsizes[0]);
+      if (P->haligned && h == 1 && can_alloc) PUSH(OP_HALIGNED, 1000, 64 * MiB);
       PUSH(OP_HEAP_DELETE, h, 0);
       if (P->hdestroy) PUSH(OP_HEAP_DESTROY, h, 0);
     }
